@@ -1504,3 +1504,145 @@ VARIANTS += [
  dict(name='p4-list-merged-arms-type-test-after-append', expect='flagged(artifact-type)',
       **p4merged(sub(P4_LOOP_MERGED, '\t\tif manifest.artifactType != ArtifactTypeNotation {\n\t\t\tcontinue\n\t\t}\n', ''), P4_PARSE + P4_PRED_OR)),
 ]
+
+# ---- round 4, seed C19-6: the four "test the declared size, then FetchAll" copies folded into one helper that is
+# given the cap. The cap of a fetch is the constant the comparison guarding it really uses: decided per call site of
+# the helper when the bound is a parameter (cap-before-fetch/<caller>#k, K = the constant passed), and compared with
+# the cap of the reference tree for what the bytes are used for (cap-class/<caller>#k: manifest 4 MiB, blob 32 MiB).
+S6_BLOBFETCH0 = '\tsigBlob, err := content.FetchAll(ctx, fetcher, sigBlobDesc)\n'
+S6_MFETCH0 = '\tmanifestJSON, err := content.FetchAll(ctx, fetcher, sigManifestDesc)\n'
+S6_TEST = '\tif desc.Size > limit {\n'
+S6_HELPER = r'''// fetchLimited fetches the content described by desc from fetcher. Content
+// whose declared size exceeds limit is refused before anything is read, so
+// that an oversized manifest or blob is never buffered in memory.
+func fetchLimited(ctx context.Context, fetcher content.Fetcher, desc ocispec.Descriptor, limit int64, what string) ([]byte, error) {
+	if desc.Size > limit {
+		return nil, fmt.Errorf("%s too large: %d bytes (limit: %d bytes)", what, desc.Size, limit)
+	}
+	return content.FetchAll(ctx, fetcher, desc)
+}
+'''
+S6_SIG0 = 'func fetchLimited(ctx context.Context, fetcher content.Fetcher, desc ocispec.Descriptor, limit int64, what string) ([]byte, error) {\n'
+
+def s6(helper, blob, manifest, node, extra=()):
+    """the refactoring of the seed: helper appended, the four sites rewritten to the given call expressions"""
+    return dict(file=R, all=True, find=CAPFETCH, replace='\t\t\tfetched, err := ' + node + '\n',
+                edits=[(R, BLOBCAP, ''), (R, S6_BLOBFETCH0, '\tsigBlob, err := ' + blob + '\n'),
+                       (R, LOOKUP_MCAP, ''), (R, S6_MFETCH0, '\tmanifestJSON, err := ' + manifest + '\n'), tail(helper)] + list(extra))
+
+S6_B = 'fetchLimited(ctx, fetcher, sigBlobDesc, maxBlobSizeLimit, "signature blob")'
+S6_M = 'fetchLimited(ctx, fetcher, sigManifestDesc, maxManifestSizeLimit, "signature manifest")'
+S6_N = 'fetchLimited(ctx, target, node, maxManifestSizeLimit, "referrer node")'
+# the cap first / the parameters in another order
+S6_HELPER_CAP_FIRST = sub(S6_HELPER, S6_SIG0, 'func fetchLimited(limit int64, ctx context.Context, fetcher content.Fetcher, desc ocispec.Descriptor, what string) ([]byte, error) {\n')
+S6_HELPER_REORDERED = sub(S6_HELPER, S6_SIG0, 'func fetchLimited(ctx context.Context, what string, desc ocispec.Descriptor, limit int64, fetcher content.Fetcher) ([]byte, error) {\n')
+S6_B1 = 'fetchLimited(maxBlobSizeLimit, ctx, fetcher, sigBlobDesc, "signature blob")'
+S6_M1 = 'fetchLimited(maxManifestSizeLimit, ctx, fetcher, sigManifestDesc, "signature manifest")'
+S6_N1 = 'fetchLimited(maxManifestSizeLimit, ctx, target, node, "referrer node")'
+S6_B2 = 'fetchLimited(ctx, "signature blob", sigBlobDesc, maxBlobSizeLimit, fetcher)'
+S6_M2 = 'fetchLimited(ctx, "signature manifest", sigManifestDesc, maxManifestSizeLimit, fetcher)'
+S6_N2 = 'fetchLimited(ctx, "referrer node", node, maxManifestSizeLimit, target)'
+# two helpers, each with its own constant
+S6_TWO = r'''// fetchManifest fetches a manifest of at most maxManifestSizeLimit bytes.
+func fetchManifest(ctx context.Context, fetcher content.Fetcher, desc ocispec.Descriptor, what string) ([]byte, error) {
+	if desc.Size > maxManifestSizeLimit {
+		return nil, fmt.Errorf("%s too large: %d bytes", what, desc.Size)
+	}
+	return content.FetchAll(ctx, fetcher, desc)
+}
+
+// fetchBlob fetches a signature envelope of at most maxBlobSizeLimit bytes.
+func fetchBlob(ctx context.Context, fetcher content.Fetcher, desc ocispec.Descriptor) ([]byte, error) {
+	if desc.Size > maxBlobSizeLimit {
+		return nil, fmt.Errorf("signature blob too large: %d bytes", desc.Size)
+	}
+	return content.FetchAll(ctx, fetcher, desc)
+}
+'''
+S6_BT = 'fetchBlob(ctx, fetcher, sigBlobDesc)'
+S6_MT = 'fetchManifest(ctx, fetcher, sigManifestDesc, "signature manifest")'
+S6_NT = 'fetchManifest(ctx, target, node, "referrer node")'
+# the cap handed on through one more wrapper
+S6_WRAP = S6_HELPER + r'''
+// fetchManifestLimited fetches a manifest under the manifest size limit.
+func fetchManifestLimited(ctx context.Context, fetcher content.Fetcher, desc ocispec.Descriptor, what string) ([]byte, error) {
+	return fetchLimited(ctx, fetcher, desc, maxManifestSizeLimit, what)
+}
+'''
+S6_MW = 'fetchManifestLimited(ctx, fetcher, sigManifestDesc, "signature manifest")'
+S6_NW = 'fetchManifestLimited(ctx, target, node, "referrer node")'
+# ... the wrapper handing its own parameter on
+S6_WRAP2 = S6_HELPER + r'''
+// fetchNamed fetches content under the given limit and wraps the error.
+func fetchNamed(ctx context.Context, fetcher content.Fetcher, desc ocispec.Descriptor, max int64, what string) ([]byte, error) {
+	b, err := fetchLimited(ctx, fetcher, desc, max, what)
+	if err != nil {
+		return nil, fmt.Errorf("failed to fetch %s: %w", what, err)
+	}
+	return b, nil
+}
+'''
+# the test in a helper of its own, called by the fetching helper
+S6_HELPER_TEST_FN = sub(S6_HELPER, '\tif desc.Size > limit {\n\t\treturn nil, fmt.Errorf("%s too large: %d bytes (limit: %d bytes)", what, desc.Size, limit)\n\t}\n',
+                        '\tif err := checkSize(desc, limit, what); err != nil {\n\t\treturn nil, err\n\t}\n') + r'''
+func checkSize(desc ocispec.Descriptor, limit int64, what string) error {
+	if desc.Size > limit {
+		return fmt.Errorf("%s too large: %d bytes (limit: %d bytes)", what, desc.Size, limit)
+	}
+	return nil
+}
+'''
+# the size measured on a descriptor given separately
+S6_HELPER_SIZED = sub(sub(S6_HELPER, S6_SIG0, 'func fetchLimited(ctx context.Context, fetcher content.Fetcher, desc, sized ocispec.Descriptor, limit int64, what string) ([]byte, error) {\n'),
+                      S6_TEST, '\tif sized.Size > limit {\n')
+S6_BS = 'fetchLimited(ctx, fetcher, sigBlobDesc, sigBlobDesc, maxBlobSizeLimit, "signature blob")'
+S6_MS = 'fetchLimited(ctx, fetcher, sigManifestDesc, sigManifestDesc, maxManifestSizeLimit, "signature manifest")'
+S6_NS = 'fetchLimited(ctx, target, node, node, maxManifestSizeLimit, "referrer node")'
+
+VARIANTS += [
+ # behaviour-preserving
+ dict(name='seed6-twin-fetch-limited', expect='silent', **s6(S6_HELPER, S6_B, S6_M, S6_N),
+      why='the benign twin of seed C19-6: the helper compares against the cap it is given, every call site passes the cap of the reference tree'),
+ dict(name='seed6-twin-cap-parameter-first', expect='silent', **s6(S6_HELPER_CAP_FIRST, S6_B1, S6_M1, S6_N1)),
+ dict(name='seed6-twin-parameters-reordered', expect='silent', **s6(S6_HELPER_REORDERED, S6_B2, S6_M2, S6_N2)),
+ dict(name='seed6-twin-two-helpers-own-constants', expect='silent', **s6(S6_TWO, S6_BT, S6_MT, S6_NT)),
+ dict(name='seed6-twin-cap-through-wrapper', expect='silent', **s6(S6_WRAP, S6_B, S6_MW, S6_NW)),
+ dict(name='seed6-twin-cap-handed-on-by-wrapper', expect='silent',
+      **s6(S6_WRAP2, S6_B.replace('fetchLimited(', 'fetchNamed('), S6_M.replace('fetchLimited(', 'fetchNamed('), S6_N.replace('fetchLimited(', 'fetchNamed('))),
+ dict(name='seed6-twin-bound-on-the-left', expect='silent', **s6(sub(S6_HELPER, S6_TEST, '\tif limit < desc.Size {\n'), S6_B, S6_M, S6_N)),
+ dict(name='seed6-twin-strict-comparison', expect='silent', **s6(sub(S6_HELPER, S6_TEST, '\tif desc.Size >= limit {\n'), S6_B, S6_M, S6_N),
+      why='`>=` refuses one byte earlier: a cap of K-1, still within the cap of the reference tree'),
+ dict(name='seed6-twin-test-in-own-helper', expect='silent', **s6(S6_HELPER_TEST_FN, S6_B, S6_M, S6_N)),
+ dict(name='seed6-twin-int-cap-converted', expect='silent',
+      **s6(sub(sub(S6_HELPER, 'limit int64, what string)', 'limit int, what string)'), S6_TEST, '\tif desc.Size > int64(limit) {\n'), S6_B, S6_M, S6_N)),
+ dict(name='seed6-twin-size-of-separate-descriptor-same-argument', expect='silent', **s6(S6_HELPER_SIZED, S6_BS, S6_MS, S6_NS),
+      why='the descriptor that is measured is a parameter of its own, but every call site passes the fetched descriptor for it'),
+ dict(name='seed6-twin-literal-caps', expect='silent', **s6(S6_HELPER, S6_B.replace('maxBlobSizeLimit', '32<<20'), S6_M.replace('maxManifestSizeLimit', '4<<20'), S6_N.replace('maxManifestSizeLimit', '4*1024*1024')),
+      why='the numbers are pinned, not the names of the constants'),
+ # the seed and its relatives
+ dict(name='seed6-fetch-limited-compares-blob-cap', expect='flagged(cap-class)', **s6(sub(S6_HELPER, S6_TEST, '\tif desc.Size > maxBlobSizeLimit {\n'), S6_B, S6_M, S6_N),
+      why='seed C19-6: the cap parameter only appears in the error text; all three manifest fetches run under the 32 MiB blob cap'),
+ dict(name='seed6-cap-parameter-first-compares-blob-cap', expect='flagged(cap-class)',
+      **s6(sub(S6_HELPER_CAP_FIRST, S6_TEST, '\tif desc.Size > maxBlobSizeLimit {\n'), S6_B1, S6_M1, S6_N1)),
+ dict(name='seed6-test-in-own-helper-compares-blob-cap', expect='flagged(cap-class)',
+      **s6(sub(S6_HELPER_TEST_FN, S6_TEST, '\tif desc.Size > maxBlobSizeLimit {\n'), S6_B, S6_M, S6_N)),
+ dict(name='seed6-lookup-site-passes-blob-cap', expect='flagged(cap-class)', **s6(S6_HELPER, S6_B, S6_M.replace('maxManifestSizeLimit', 'maxBlobSizeLimit'), S6_N),
+      why='the helper is right, one call site hands it the wrong constant: the signature manifest is fetched under the blob cap'),
+ dict(name='seed6-listing-site-passes-raised-literal', expect='flagged(cap-class)', **s6(S6_HELPER, S6_B, S6_M, S6_N.replace('maxManifestSizeLimit', '16<<20'))),
+ dict(name='seed6-blob-site-passes-raised-cap', expect='flagged(cap-class)', **s6(S6_HELPER, S6_B.replace('maxBlobSizeLimit', '4*maxBlobSizeLimit'), S6_M, S6_N)),
+ dict(name='seed6-listing-site-passes-zero', expect='flagged(cap-before-fetch)', **s6(S6_HELPER, S6_B, S6_M, S6_N.replace('maxManifestSizeLimit', '0')),
+      why='the bound passed at a call site is not a positive constant'),
+ dict(name='seed6-nonpositive-cap-disables-and-site-passes-negative', expect='flagged(cap-before-fetch)',
+      **s6(sub(S6_HELPER, S6_TEST, '\tif limit > 0 && desc.Size > limit {\n'), S6_B, S6_M.replace('maxManifestSizeLimit', '-1'), S6_N),
+      why='a non-positive limit switches the test off, and the lookup passes one'),
+ dict(name='seed6-two-helpers-lookup-uses-blob-helper', expect='flagged(cap-class)', **s6(S6_TWO, S6_BT, 'fetchBlob(ctx, fetcher, sigManifestDesc)', S6_NT)),
+ dict(name='seed6-wrapper-hands-on-blob-cap', expect='flagged(cap-class)', **s6(sub(S6_WRAP, 'desc, maxManifestSizeLimit, what)', 'desc, maxBlobSizeLimit, what)'), S6_B, S6_MW, S6_NW)),
+ dict(name='seed6-size-of-another-descriptor', expect='flagged(cap-before-fetch)', **s6(S6_HELPER_SIZED, S6_BS.replace('sigBlobDesc, sigBlobDesc', 'sigBlobDesc, desc'), S6_MS, S6_NS),
+      why='the size that is compared is the manifest descriptor\'s, the content that is fetched is the blob\'s'),
+ dict(name='seed6-helper-fetches-before-it-tests', expect='flagged(cap-before-fetch)',
+      **s6(sub(S6_HELPER, '\tif desc.Size > limit {\n\t\treturn nil, fmt.Errorf("%s too large: %d bytes (limit: %d bytes)", what, desc.Size, limit)\n\t}\n\treturn content.FetchAll(ctx, fetcher, desc)\n',
+               '\tb, err := content.FetchAll(ctx, fetcher, desc)\n\tif err != nil {\n\t\treturn nil, err\n\t}\n\tif desc.Size > limit {\n\t\treturn nil, fmt.Errorf("%s too large: %d bytes (limit: %d bytes)", what, desc.Size, limit)\n\t}\n\treturn b, nil\n'), S6_B, S6_M, S6_N)),
+ # the same slips without any helper: a raised constant at the site itself
+ dict(name='seed6-inline-lookup-tests-blob-cap', file=R, expect='flagged(cap-class)', find='\tif sigManifestDesc.Size > maxManifestSizeLimit {', replace='\tif sigManifestDesc.Size > maxBlobSizeLimit {'),
+ dict(name='seed6-inline-manifest-cap-constant-raised', file=R, expect='flagged(cap-class)', find='\tmaxManifestSizeLimit = 4 * 1024 * 1024  // 4 MiB', replace='\tmaxManifestSizeLimit = 8 * 1024 * 1024  // 8 MiB'),
+]
